@@ -1,4 +1,672 @@
-//! C17 — JSON forms and schema conversions (filled in below).
-use crate::engine::Ctx;
-use crate::gen::Codec;
-pub fn check_typed<T: Codec>(_ctx: &mut Ctx, _v: &T) {}
+//! C17 — JSON forms round-trip and schema conversions behave as documented.
+
+use crate::engine::{explore, guard, panic_sig, Ctx, Opts};
+use crate::gen::{self, Codec, Mode};
+use crate::props::BoxedScenario;
+use crate::report::{Report, Tier};
+use crate::util::*;
+use cardano_serialization_lib as csl;
+use csl::*;
+use serde_json::{json, Value as J};
+
+const P: &str = "C17";
+
+// ---------------------------------------------------------------------------------------------
+// (a) typed values
+
+pub fn check_typed<T: Codec>(ctx: &mut Ctx, v: &T) {
+    if !T::HAS_JSON {
+        return;
+    }
+    let name = T::NAME;
+    ctx.compared();
+    let js = match guard(|| v.to_json_()) {
+        Err(p) => {
+            ctx.violation(panic_sig(P, &format!("{}::to_json", name), &p), p.msg.clone());
+            return;
+        }
+        Ok(Err(e)) => {
+            ctx.violation(format!("{}/{}/to_json-fails", P, name), format!("{} : {}", short(&format!("{:?}", v), 200), short(&e, 200)));
+            return;
+        }
+        Ok(Ok(s)) => s,
+    };
+    ctx.observe(&(name, &js));
+    let back = match guard(|| T::from_json_(&js)) {
+        Err(p) => {
+            ctx.violation(panic_sig(P, &format!("{}::from_json", name), &p), format!("{}: {}", short(&js, 200), p.msg));
+            return;
+        }
+        Ok(Err(e)) => {
+            ctx.violation(format!("{}/{}/from_json-rejects-own-output", P, name), format!("{} : {}", short(&js.replace('\n', " "), 300), short(&e, 200)));
+            return;
+        }
+        Ok(Ok(x)) => x,
+    };
+    let relaxed = gen::EMPTY_OPTIONAL.with(|c| c.get());
+    let vb = guard(|| v.enc());
+    let bb = guard(|| back.enc());
+    if !relaxed {
+        if !back.same(v) {
+            ctx.violation(
+                format!("{}/{}/json-roundtrip-value-differs", P, name),
+                format!("json {} ; original {} ; back {}", short(&js.replace('\n', " "), 200), short(&format!("{:?}", v), 250), short(&format!("{:?}", back), 250)),
+            );
+        }
+        match (&vb, &bb) {
+            (Ok(a), Ok(b)) if a == b => {}
+            (Ok(a), Ok(b)) => ctx.violation(format!("{}/{}/json-roundtrip-bytes-differ", P, name), format!("{} vs {}", short(&hx(a), 160), short(&hx(b), 160))),
+            _ => {}
+        }
+    }
+    // JSON is a fixpoint after one pass, whatever the insertion order was
+    match guard(|| back.to_json_()) {
+        Ok(Ok(js2)) => {
+            let a: Result<J, _> = serde_json::from_str(&js);
+            let b: Result<J, _> = serde_json::from_str(&js2);
+            match (a, b) {
+                (Ok(a), Ok(b)) => {
+                    if a != b {
+                        ctx.violation(format!("{}/{}/json-not-a-fixpoint", P, name), format!("{} vs {}", short(&js.replace('\n', " "), 200), short(&js2.replace('\n', " "), 200)));
+                    }
+                }
+                _ => ctx.violation(format!("{}/{}/to_json-not-json", P, name), short(&js, 200)),
+            }
+        }
+        Ok(Err(e)) => ctx.violation(format!("{}/{}/to_json-fails-after-roundtrip", P, name), e),
+        Err(p) => ctx.violation(panic_sig(P, &format!("{}::to_json", name), &p), p.msg.clone()),
+    }
+}
+
+// ---------------------------------------------------------------------------------------------
+// reference view of a metadatum
+
+#[derive(Clone, Debug, PartialEq)]
+enum RefMd {
+    Int(i128),
+    Bytes(Vec<u8>),
+    Text(String),
+    List(Vec<RefMd>),
+    Map(Vec<(RefMd, RefMd)>),
+}
+
+fn view(m: &TransactionMetadatum) -> RefMd {
+    match m.kind() {
+        TransactionMetadatumKind::Int => RefMd::Int(m.as_int().unwrap().to_str().parse().unwrap()),
+        TransactionMetadatumKind::Bytes => RefMd::Bytes(m.as_bytes().unwrap()),
+        TransactionMetadatumKind::Text => RefMd::Text(m.as_text().unwrap()),
+        TransactionMetadatumKind::MetadataList => {
+            let l = m.as_list().unwrap();
+            RefMd::List((0..l.len()).map(|i| view(&l.get(i))).collect())
+        }
+        TransactionMetadatumKind::MetadataMap => {
+            let mm = m.as_map().unwrap();
+            let keys = mm.keys();
+            RefMd::Map((0..keys.len()).map(|i| (view(&keys.get(i)), view(&mm.get(&keys.get(i)).unwrap()))).collect())
+        }
+    }
+}
+
+fn ref_int(n: &serde_json::Number) -> Option<RefMd> {
+    let s = n.to_string();
+    if s.contains('.') || s.contains('e') || s.contains('E') {
+        return None;
+    }
+    let v: i128 = s.parse().ok()?;
+    if v > u64::MAX as i128 || v < i64::MIN as i128 {
+        return None;
+    }
+    Some(RefMd::Int(v))
+}
+fn ref_text(s: &str) -> Option<RefMd> {
+    if s.len() > 64 {
+        None
+    } else {
+        Some(RefMd::Text(s.to_string()))
+    }
+}
+fn ref_bytes(b: Vec<u8>) -> Option<RefMd> {
+    if b.len() > 64 {
+        None
+    } else {
+        Some(RefMd::Bytes(b))
+    }
+}
+fn basic_string(s: &str) -> Option<RefMd> {
+    if let Some(h) = s.strip_prefix("0x") {
+        if let Ok(b) = hex::decode(h) {
+            return ref_bytes(b);
+        }
+    }
+    ref_text(s)
+}
+
+/// reference JSON -> metadata conversion; None = the document is outside the schema
+fn ref_encode(j: &J, schema: MetadataJsonSchema) -> Option<RefMd> {
+    match schema {
+        MetadataJsonSchema::NoConversions | MetadataJsonSchema::BasicConversions => {
+            let basic = schema == MetadataJsonSchema::BasicConversions;
+            match j {
+                J::Null | J::Bool(_) => None,
+                J::Number(n) => ref_int(n),
+                J::String(s) => {
+                    if basic {
+                        basic_string(s)
+                    } else {
+                        ref_text(s)
+                    }
+                }
+                J::Array(a) => Some(RefMd::List(a.iter().map(|x| ref_encode(x, schema)).collect::<Option<Vec<_>>>()?)),
+                J::Object(o) => {
+                    let mut out: Vec<(RefMd, RefMd)> = Vec::new();
+                    for (k, v) in o {
+                        let key = if basic {
+                            match k.parse::<i128>() {
+                                Ok(x) if x <= u64::MAX as i128 && x >= -(u64::MAX as i128) - 1 => RefMd::Int(x),
+                                _ => basic_string(k)?,
+                            }
+                        } else {
+                            ref_text(k)?
+                        };
+                        let val = ref_encode(v, schema)?;
+                        if let Some(e) = out.iter_mut().find(|e| e.0 == key) {
+                            e.1 = val;
+                        } else {
+                            out.push((key, val));
+                        }
+                    }
+                    Some(RefMd::Map(out))
+                }
+            }
+        }
+        MetadataJsonSchema::DetailedSchema => {
+            let o = j.as_object()?;
+            if o.len() != 1 {
+                return None;
+            }
+            let (k, v) = o.iter().next().unwrap();
+            match k.as_str() {
+                "int" => ref_int(v.as_number()?),
+                "string" => ref_text(v.as_str()?),
+                "bytes" => ref_bytes(hex::decode(v.as_str()?).ok()?),
+                "list" => Some(RefMd::List(v.as_array()?.iter().map(|x| ref_encode(x, schema)).collect::<Option<Vec<_>>>()?)),
+                "map" => {
+                    let mut out: Vec<(RefMd, RefMd)> = Vec::new();
+                    for e in v.as_array()? {
+                        let eo = e.as_object()?;
+                        let key = ref_encode(eo.get("k")?, schema)?;
+                        let val = ref_encode(eo.get("v")?, schema)?;
+                        if let Some(x) = out.iter_mut().find(|x| x.0 == key) {
+                            x.1 = val;
+                        } else {
+                            out.push((key, val));
+                        }
+                    }
+                    Some(RefMd::Map(out))
+                }
+                _ => None,
+            }
+        }
+    }
+}
+
+const SCHEMAS: [MetadataJsonSchema; 3] = [MetadataJsonSchema::NoConversions, MetadataJsonSchema::BasicConversions, MetadataJsonSchema::DetailedSchema];
+fn schema_name(s: MetadataJsonSchema) -> &'static str {
+    match s {
+        MetadataJsonSchema::NoConversions => "NoConversions",
+        MetadataJsonSchema::BasicConversions => "BasicConversions",
+        MetadataJsonSchema::DetailedSchema => "DetailedSchema",
+    }
+}
+
+// ---------------------------------------------------------------------------------------------
+// (b) metadata -> JSON -> metadata
+
+/// maps filled in ascending key order (the JSON object forms do not record order)
+fn sorted_maps(m: &TransactionMetadatum) -> bool {
+    match view(m) {
+        RefMd::Map(_) | RefMd::List(_) => {}
+        _ => return true,
+    }
+    fn go(r: &RefMd) -> bool {
+        match r {
+            RefMd::List(l) => l.iter().all(go),
+            RefMd::Map(m) => {
+                let keys: Vec<String> = m
+                    .iter()
+                    .map(|(k, _)| match k {
+                        RefMd::Text(s) => s.clone(),
+                        RefMd::Int(i) => i.to_string(),
+                        RefMd::Bytes(b) => format!("0x{}", hex::encode(b)),
+                        _ => String::new(),
+                    })
+                    .collect();
+                keys.windows(2).all(|w| w[0] < w[1]) && m.iter().all(|(k, v)| go(k) && go(v))
+            }
+            _ => true,
+        }
+    }
+    go(&view(m))
+}
+
+fn sc_md_to_json(ctx: &mut Ctx) {
+    gen::MODE.with(|m| m.set(Mode::Off));
+    let md = gen::g_metadatum(ctx, 3);
+    let detailed = ctx.choose_free(2) == 1;
+    let schema = if detailed { MetadataJsonSchema::DetailedSchema } else { MetadataJsonSchema::NoConversions };
+    ctx.observe(&(md.to_bytes(), detailed));
+    ctx.set_sample(|| format!("metadatum {:?} under {}", view(&md), schema_name(schema)));
+    ctx.compared();
+    match guard(|| decode_metadatum_to_json_str(&md, schema)) {
+        Err(p) => ctx.violation(panic_sig(P, "decode_metadatum_to_json_str", &p), format!("{:?}: {}", view(&md), p.msg)),
+        Ok(Err(_)) => ctx.hit("md->json-err"),
+        Ok(Ok(js)) => {
+            ctx.hit(if detailed { "md->json-ok-detailed" } else { "md->json-ok-noconv" });
+            match guard(|| encode_json_str_to_metadatum(js.clone(), schema)) {
+                Err(p) => ctx.violation(panic_sig(P, "encode_json_str_to_metadatum", &p), format!("{}: {}", js, p.msg)),
+                Ok(Err(e)) => ctx.violation(format!("{}/metadata/{}/json-of-metadatum-rejected", P, schema_name(schema)), format!("{:?} -> {} -> {:?}", view(&md), js, e)),
+                Ok(Ok(back)) => {
+                    // object forms cannot record insertion order: identity is claimed for maps in ascending key order
+                    if detailed || sorted_maps(&md) {
+                        if view(&back) != view(&md) || back.to_bytes() != md.to_bytes() {
+                            ctx.violation(format!("{}/metadata/{}/md-json-md-differs", P, schema_name(schema)), format!("{:?} -> {} -> {:?}", view(&md), js, view(&back)));
+                        }
+                    } else {
+                        ctx.hit("md-unsorted-map-skipped");
+                    }
+                }
+            }
+        }
+    }
+}
+
+// ---------------------------------------------------------------------------------------------
+// (c) JSON -> metadata -> JSON
+
+fn g_json_int(ctx: &mut Ctx) -> J {
+    let s: &str = *ctx.pick(&["0", "1", "-1", "23", "9223372036854775807", "9223372036854775808", "18446744073709551615", "-9223372036854775808"]);
+    serde_json::from_str(s).unwrap()
+}
+fn g_json_string(ctx: &mut Ctx) -> String {
+    (*ctx.pick(&["a", "", "0xab", "0x", "12", "0xzz", "héllo wörld", "ssssssssssssssssssssssssssssssssssssssssssssssssssssssssssssssss"])).to_string()
+}
+fn g_json_key(ctx: &mut Ctx, schema: MetadataJsonSchema) -> String {
+    if schema == MetadataJsonSchema::BasicConversions {
+        (*ctx.pick(&["k", "", "12", "-7", "0xabcd", "18446744073709551615", "-18446744073709551616", "99999999999999999999999999", "0xzz"])).to_string()
+    } else {
+        (*ctx.pick(&["k", "", "12", "0xabcd", "kkkkkkkkkkkkkkkkkkkkkkkkkkkkkkkkkkkkkkkkkkkkkkkkkkkkkkkkkkkkkkkk"])).to_string()
+    }
+}
+/// a document in the schema's normal form
+fn g_json(ctx: &mut Ctx, schema: MetadataJsonSchema, depth: u32) -> J {
+    let detailed = schema == MetadataJsonSchema::DetailedSchema;
+    let kinds = if depth == 0 { 3 } else { 5 };
+    let k = ctx.choose(kinds);
+    let tag = |t: &str, v: J| -> J {
+        if detailed {
+            let mut m = serde_json::Map::new();
+            m.insert(t.to_string(), v);
+            J::Object(m)
+        } else {
+            v
+        }
+    };
+    match k {
+        0 => tag("int", g_json_int(ctx)),
+        1 => tag("string", J::String(g_json_string(ctx))),
+        2 => {
+            // bytes: only the schemas that have them
+            match schema {
+                MetadataJsonSchema::DetailedSchema => tag("bytes", J::String((*ctx.pick(&["ab", "", "00ff00"])).to_string())),
+                MetadataJsonSchema::BasicConversions => J::String((*ctx.pick(&["0xab", "0x", "0x00ff00"])).to_string()),
+                MetadataJsonSchema::NoConversions => J::String("plain".into()),
+            }
+        }
+        3 => {
+            let n = ctx.choose(3);
+            let mut a = Vec::new();
+            for i in 0..n {
+                a.push(if i == 0 { g_json(ctx, schema, depth - 1) } else { tag("int", json!(i)) });
+            }
+            tag("list", J::Array(a))
+        }
+        _ => {
+            let n = ctx.choose(3);
+            if detailed {
+                let mut entries = Vec::new();
+                for i in 0..n {
+                    let (k, v) = if i == 0 { (g_json(ctx, schema, depth - 1), g_json(ctx, schema, depth - 1)) } else { (json!({"string": format!("z{}", i)}), json!({"int": i})) };
+                    entries.push(json!({"k": k, "v": v}));
+                }
+                tag("map", J::Array(entries))
+            } else {
+                let mut m = serde_json::Map::new();
+                for i in 0..n {
+                    if i == 0 {
+                        let key = g_json_key(ctx, schema);
+                        let v = g_json(ctx, schema, depth - 1);
+                        m.insert(key, v);
+                    } else {
+                        m.insert(format!("z{}", i), json!(i));
+                    }
+                }
+                J::Object(m)
+            }
+        }
+    }
+}
+
+fn sc_json_to_md(ctx: &mut Ctx) {
+    let si = ctx.choose_free(3);
+    let schema = SCHEMAS[si];
+    let j = g_json(ctx, schema, 3);
+    let text = serde_json::to_string(&j).unwrap();
+    ctx.observe(&(si, &text));
+    ctx.set_sample(|| format!("{} under {}", text, schema_name(schema)));
+    let want = ref_encode(&j, schema);
+    ctx.compared();
+    match guard(|| encode_json_str_to_metadatum(text.clone(), schema)) {
+        Err(p) => ctx.violation(panic_sig(P, "encode_json_str_to_metadatum", &p), format!("{}: {}", text, p.msg)),
+        Ok(Err(e)) => match want {
+            None => ctx.hit("json->md-err"),
+            Some(w) => ctx.violation(format!("{}/metadata/{}/in-schema-json-rejected", P, schema_name(schema)), format!("{} (reference: {:?}): {:?}", text, w, e)),
+        },
+        Ok(Ok(md)) => match want {
+            None => ctx.violation(format!("{}/metadata/{}/out-of-schema-json-accepted", P, schema_name(schema)), format!("{} -> {:?}", text, view(&md))),
+            Some(w) => {
+                ctx.hit("json->md-ok");
+                if view(&md) != w {
+                    ctx.violation(format!("{}/metadata/{}/json-converted-to-different-value", P, schema_name(schema)), format!("{} -> {:?} expected {:?}", text, view(&md), w));
+                    return;
+                }
+                // and back: identity on the parsed JSON (normal form)
+                match guard(|| decode_metadatum_to_json_str(&md, schema)) {
+                    Err(p) => ctx.violation(panic_sig(P, "decode_metadatum_to_json_str", &p), p.msg.clone()),
+                    Ok(Err(e)) => {
+                        // e.g. an integer key below i64::MIN has no JSON form: explicit error
+                        ctx.hit("json->md->json-err");
+                        let _ = e;
+                    }
+                    Ok(Ok(back)) => {
+                        let bj: J = serde_json::from_str(&back).unwrap_or(J::Null);
+                        if bj != j {
+                            // keys that collapse (e.g. "12" given twice in different spellings) are not normal form; our generator never does that
+                            ctx.violation(format!("{}/metadata/{}/json-md-json-differs", P, schema_name(schema)), format!("{} -> {:?} -> {}", text, view(&md), back));
+                        }
+                    }
+                }
+            }
+        },
+    }
+}
+
+/// documents one step outside each schema: must be an error, never a value
+fn sc_json_outside(ctx: &mut Ctx) {
+    let si = ctx.choose_free(3);
+    let schema = SCHEMAS[si];
+    let s65 = "s".repeat(65);
+    let common: Vec<String> = vec![
+        "true".into(),
+        "null".into(),
+        "1.5".into(),
+        "1e3".into(),
+        "18446744073709551616".into(),
+        "-9223372036854775809".into(),
+        format!("\"{}\"", s65),
+        "[true]".into(),
+        "[1, null]".into(),
+        "{\"a\": null}".into(),
+        "{\"a\": [false]}".into(),
+        format!("{{\"{}\": 1}}", s65),
+        "".into(),
+        "{".into(),
+        "[1,]".into(),
+    ];
+    let detailed: Vec<String> = vec![
+        "5".into(),
+        "\"a\"".into(),
+        "[]".into(),
+        "{}".into(),
+        "{\"int\": \"1\"}".into(),
+        "{\"int\": 1.5}".into(),
+        "{\"int\": 18446744073709551616}".into(),
+        "{\"bytes\": \"abc\"}".into(),
+        "{\"bytes\": \"zz\"}".into(),
+        "{\"bytes\": 5}".into(),
+        "{\"bytes\": \"0xab\"}".into(),
+        format!("{{\"bytes\": \"{}\"}}", "ab".repeat(65)),
+        "{\"string\": 1}".into(),
+        format!("{{\"string\": \"{}\"}}", s65),
+        "{\"list\": {}}".into(),
+        "{\"list\": [5]}".into(),
+        "{\"map\": {}}".into(),
+        "{\"map\": [{\"k\": {\"int\": 1}}]}".into(),
+        "{\"map\": [{\"v\": {\"int\": 1}}]}".into(),
+        "{\"map\": [[1, 2]]}".into(),
+        "{\"map\": [{\"k\": 1, \"v\": {\"int\": 1}}]}".into(),
+        "{\"int\": 1, \"string\": \"a\"}".into(),
+        "{\"foo\": 1}".into(),
+        "{\"Int\": 1}".into(),
+    ];
+    let mut docs = common;
+    if schema == MetadataJsonSchema::DetailedSchema {
+        docs.extend(detailed);
+    } else if schema == MetadataJsonSchema::BasicConversions {
+        docs.push(format!("\"0x{}\"", "ab".repeat(65)));
+        docs.push(format!("{{\"0x{}\": 1}}", "ab".repeat(65)));
+    }
+    let i = ctx.choose_free(docs.len().max(40));
+    if i >= docs.len() {
+        return;
+    }
+    let text = &docs[i];
+    ctx.observe(&(si, text));
+    ctx.set_sample(|| format!("outside {}: {}", schema_name(schema), short(text, 100)));
+    // the reference must agree that the document is outside (guards the harness, not the library)
+    if let Ok(j) = serde_json::from_str::<J>(text) {
+        if ref_encode(&j, schema).is_some() {
+            crate::engine::machinery(format!("harness error: reference accepts 'outside' document {} under {}", text, schema_name(schema)));
+        }
+    }
+    ctx.compared();
+    match guard(|| encode_json_str_to_metadatum(text.clone(), schema)) {
+        Err(p) => ctx.violation(panic_sig(P, "encode_json_str_to_metadatum", &p), format!("{}: {}", short(text, 100), p.msg)),
+        Ok(Err(_)) => ctx.hit("outside-rejected"),
+        Ok(Ok(md)) => ctx.violation(format!("{}/metadata/{}/out-of-schema-json-accepted", P, schema_name(schema)), format!("{} -> {:?}", short(text, 120), view(&md))),
+    }
+}
+
+// ---------------------------------------------------------------------------------------------
+// (d) Plutus datum <-> detailed JSON
+
+fn sc_datum_json(ctx: &mut Ctx) {
+    gen::MODE.with(|m| m.set(Mode::Off));
+    let d = gen::g_plutus_data(ctx, 3);
+    let bytes = d.to_bytes();
+    ctx.observe(&bytes);
+    ctx.set_sample(|| format!("datum {}", short(&hx(&bytes), 120)));
+    ctx.compared();
+    match guard(|| decode_plutus_datum_to_json_str(&d, PlutusDatumSchema::DetailedSchema)) {
+        Err(p) => ctx.violation(panic_sig(P, "decode_plutus_datum_to_json_str", &p), format!("{}: {}", short(&hx(&bytes), 100), p.msg)),
+        Ok(Err(e)) => ctx.violation(format!("{}/datum/detailed/to-json-fails", P), format!("{}: {:?}", short(&hx(&bytes), 100), e)),
+        Ok(Ok(js)) => match guard(|| encode_json_str_to_plutus_datum(&js, PlutusDatumSchema::DetailedSchema)) {
+            Err(p) => ctx.violation(panic_sig(P, "encode_json_str_to_plutus_datum", &p), format!("{}: {}", short(&js, 160), p.msg)),
+            Ok(Err(e)) => ctx.violation(format!("{}/datum/detailed/own-json-rejected", P), format!("{} : {:?}", short(&js, 200), e)),
+            Ok(Ok(back)) => {
+                ctx.hit("datum-json-ok");
+                if back.to_bytes() != bytes {
+                    ctx.violation(format!("{}/datum/detailed/roundtrip-differs", P), format!("{} -> {} -> {}", short(&hx(&bytes), 120), short(&js, 160), short(&hx(&back.to_bytes()), 120)));
+                }
+            }
+        },
+    }
+    // the method form must agree with the free functions
+    if let (Ok(Ok(a)), Ok(Ok(b))) = (guard(|| d.to_json(PlutusDatumSchema::DetailedSchema)), guard(|| decode_plutus_datum_to_json_str(&d, PlutusDatumSchema::DetailedSchema))) {
+        if a != b {
+            ctx.violation(format!("{}/datum/to_json-differs-from-free-function", P), short(&a, 100));
+        }
+    }
+}
+
+// ---------------------------------------------------------------------------------------------
+// (e) arbitrary bytes through the chunk helpers
+
+fn sc_chunks(ctx: &mut Ctx) {
+    let len = ctx.choose_free(201);
+    let fill = ctx.choose_free(2);
+    let b: Vec<u8> = (0..len).map(|i| if fill == 0 { i as u8 } else { 0xff }).collect();
+    ctx.observe(&(len, fill));
+    ctx.set_sample(|| format!("{} arbitrary bytes through encode/decode_arbitrary_bytes", len));
+    ctx.compared();
+    match guard(|| encode_arbitrary_bytes_as_metadatum(&b)) {
+        Err(p) => ctx.violation(panic_sig(P, "encode_arbitrary_bytes_as_metadatum", &p), p.msg.clone()),
+        Ok(md) => {
+            if let RefMd::List(l) = view(&md) {
+                for c in &l {
+                    match c {
+                        RefMd::Bytes(x) if x.len() <= 64 && !x.is_empty() => {}
+                        other => ctx.violation(format!("{}/chunks/bad-chunk", P), format!("len {}: {:?}", len, other)),
+                    }
+                }
+                if l.len() != (len + 63) / 64 {
+                    ctx.violation(format!("{}/chunks/chunk-count", P), format!("len {} -> {} chunks", len, l.len()));
+                }
+            } else {
+                ctx.violation(format!("{}/chunks/not-a-list", P), format!("len {}", len));
+            }
+            match guard(|| decode_arbitrary_bytes_from_metadatum(&md)) {
+                Ok(Ok(back)) if back == b => ctx.hit("chunks-ok"),
+                other => ctx.violation(format!("{}/chunks/roundtrip", P), format!("len {}: {:?}", len, other.map(|r| r.map(|v| v.len())))),
+            }
+            // the chunked metadatum is itself valid metadata (serialises and parses back)
+            match guard(|| TransactionMetadatum::from_bytes(md.to_bytes())) {
+                Ok(Ok(x)) if x == md => {}
+                _ => ctx.violation(format!("{}/chunks/metadatum-roundtrip", P), format!("len {}", len)),
+            }
+        }
+    }
+}
+
+// ---------------------------------------------------------------------------------------------
+// the three places where the typed JSON form is known not to carry the whole value; kept out of
+// the generator sweep so that they have one precise signature each
+
+fn json_rt<T: Codec>(v: &T) -> Result<T, String> {
+    let js = v.to_json_().map_err(|e| format!("to_json: {}", e))?;
+    T::from_json_(&js).map_err(|e| format!("from_json: {}", e))
+}
+
+fn sc_json_gaps(ctx: &mut Ctx) {
+    let case = ctx.choose_free(6);
+    ctx.observe(&case);
+    ctx.compared();
+    match case {
+        0 | 1 => {
+            let ps = if case == 0 { PlutusScript::new_v2(vec![1, 2, 3]) } else { PlutusScript::new_v3(vec![1, 2, 3]) };
+            let sr = ScriptRef::new_plutus_script(&ps);
+            ctx.set_sample(|| format!("ScriptRef with {:?} through JSON", ps.language_version().kind()));
+            match guard(|| json_rt(&sr)) {
+                Ok(Ok(back)) => {
+                    if back.to_bytes() != sr.to_bytes() {
+                        ctx.violation(format!("{}/json/plutus-script-language-lost/ScriptRef", P), format!("{} -> {}", hx(&sr.to_bytes()), hx(&back.to_bytes())));
+                    }
+                }
+                Ok(Err(e)) => ctx.violation(format!("{}/json/ScriptRef-roundtrip-fails", P), e),
+                Err(p) => ctx.violation(panic_sig(P, "ScriptRef json", &p), p.msg.clone()),
+            }
+        }
+        2 => {
+            let mut w = TransactionWitnessSet::new();
+            let mut x = PlutusScripts::new();
+            x.add(&PlutusScript::new(vec![1]));
+            x.add(&PlutusScript::new_v2(vec![2]));
+            x.add(&PlutusScript::new_v3(vec![3]));
+            w.set_plutus_scripts(&x);
+            ctx.set_sample(|| "witness set with V1+V2+V3 scripts through JSON".to_string());
+            match guard(|| json_rt(&w)) {
+                Ok(Ok(back)) => {
+                    if back.to_bytes() != w.to_bytes() {
+                        ctx.violation(format!("{}/json/plutus-script-language-lost/TransactionWitnessSet", P), format!("{} -> {}", hx(&w.to_bytes()), hx(&back.to_bytes())));
+                    }
+                }
+                Ok(Err(e)) => ctx.violation(format!("{}/json/TransactionWitnessSet-roundtrip-fails", P), e),
+                Err(p) => ctx.violation(panic_sig(P, "TransactionWitnessSet json", &p), p.msg.clone()),
+            }
+        }
+        3 => {
+            let mut a = AuxiliaryData::new();
+            let mut x = PlutusScripts::new();
+            x.add(&PlutusScript::new_v2(vec![2]));
+            a.set_plutus_scripts(&x);
+            match guard(|| json_rt(&a)) {
+                Ok(Ok(back)) => {
+                    if back.to_bytes() != a.to_bytes() {
+                        ctx.violation(format!("{}/json/plutus-script-language-lost/AuxiliaryData", P), format!("{} -> {}", hx(&a.to_bytes()), hx(&back.to_bytes())));
+                    }
+                }
+                Ok(Err(e)) => ctx.violation(format!("{}/json/AuxiliaryData-roundtrip-fails", P), e),
+                Err(p) => ctx.violation(panic_sig(P, "AuxiliaryData json", &p), p.msg.clone()),
+            }
+        }
+        4 => {
+            let ob = crate::refcbor::emit(&crate::refcbor::Node::arr(vec![crate::refcbor::Node::bytes(&[0x9f, 1, 2]), crate::refcbor::Node::uint(5)]));
+            let o = TransactionOutput::from_bytes(ob).unwrap();
+            ctx.set_sample(|| "output decoded with a malformed address through JSON".to_string());
+            match guard(|| json_rt(&o)) {
+                Ok(Ok(back)) => {
+                    if back.to_bytes() != o.to_bytes() {
+                        ctx.violation(format!("{}/json/malformed-address-changed", P), hx(&back.to_bytes()));
+                    }
+                }
+                Ok(Err(e)) => ctx.violation(format!("{}/json/malformed-address-own-json-rejected", P), e),
+                Err(p) => ctx.violation(panic_sig(P, "TransactionOutput json", &p), p.msg.clone()),
+            }
+        }
+        _ => {
+            let a = ByronAddress::icarus_from_key(&crate::fx::bip32_pub(2), 42).to_address();
+            ctx.set_sample(|| "Byron address with protocol magic 42 through JSON".to_string());
+            match guard(|| json_rt(&a)) {
+                Ok(Ok(back)) => {
+                    if back != a {
+                        ctx.violation(format!("{}/json/byron-address-changed", P), back.to_hex());
+                    }
+                }
+                Ok(Err(e)) => ctx.violation(format!("{}/json/byron-unknown-network-to_json-fails", P), e),
+                Err(p) => ctx.violation(panic_sig(P, "Address json", &p), p.msg.clone()),
+            }
+        }
+    }
+}
+
+pub fn scenario(name: &str, _tier: Tier) -> Option<BoxedScenario> {
+    Some(match name {
+        "md_to_json" => Box::new(sc_md_to_json),
+        "json_to_md" => Box::new(sc_json_to_md),
+        "json_outside" => Box::new(sc_json_outside),
+        "datum_json" => Box::new(sc_datum_json),
+        "chunks" => Box::new(sc_chunks),
+        "json_gaps" => Box::new(sc_json_gaps),
+        _ => return crate::props::c01::scenario_for(Mode::C17, name),
+    })
+}
+
+pub fn run(tier: Tier, seed: u64) -> i32 {
+    let mut rep = Report::new(P, tier, seed);
+    rep.rule = "(a) every generated typed value (as C01) through to_json/from_json; (b) metadata trees to depth 3 under NoConversions and DetailedSchema; (c) JSON documents in each schema's normal form to depth 3 and a list of documents one step outside each schema; (d) Plutus data to depth 3 through detailed JSON; (e) byte strings of every length 0..=200 through the chunk helpers. distinct = distinct (type, JSON) / (document, schema) pairs".into();
+    rep.assume("insertion-ordered maps are filled in ascending key order by the generators (the JSON forms do not record insertion order)");
+    rep.assume("object-form metadata maps (NoConversions/BasicConversions) are compared only when their keys are in ascending order of the JSON key string");
+    rep.trusted_base = vec!["serde_json (parsing of test documents)".into(), "reference JSON->metadata conversion in props/c17.rs (ref_encode), written from the schema descriptions".into()];
+    rep.required_hits = vec!["md->json-ok-detailed", "md->json-ok-noconv", "md->json-err", "json->md-ok", "outside-rejected", "datum-json-ok", "chunks-ok"];
+    crate::props::c01::run_generators(&mut rep, Mode::C17, tier, seed);
+    let d = if tier.thorough() { 4 } else { 3 };
+    for (name, bound) in [("md_to_json", Some(d)), ("json_to_md", Some(d)), ("json_outside", None), ("datum_json", Some(d)), ("chunks", None), ("json_gaps", None)] {
+        let f = scenario(name, tier).unwrap();
+        let mut opts = Opts::new(seed);
+        if let Some(b) = bound {
+            opts = opts.bound(b);
+        }
+        let st = explore(name, &*f, &opts);
+        rep.add(name, &bound.map(|b| format!("<= {} deviations", b)).unwrap_or("full product".into()), st);
+    }
+    rep.finish()
+}
